@@ -1,11 +1,14 @@
 """C05 - a failed or refused atomic_save leaves the destination intact, reports, and cleans up.
 
-Every case is one whole save on a real scratch directory: configuration (flags, file_perms, umask),
-initial destination / part file, the with-block (write calls, raises or not) and a *plan* (which
-instrumented call fails with which errno, or before which call the destination appears).  The
-same case is run by the Lean model (C05.runSave on the abstract file system); exception class /
-errno, destination bytes + mode, part file bytes + mode, directory listing, number of calls made
-and the outcome of an immediate retry are compared.  The oracle restates C05 on the real outcome.
+Every case is one whole save on a real scratch directory: configuration (flags, file_perms, umask,
+buffering), initial destination / part file, the with-block (a script of write / flush / close calls
+on the file object, ending normally or by raising one of several exception kinds) and a *plan*
+(which instrumented call fails with which errno or with which non-OSError exception class, or
+before which call the destination appears), followed by an immediate fault-free retry (on a fresh
+saver, or on the SAME AtomicSaver instance).  The same case is run by the Lean model (C05.runSave
+on the abstract file system); exception class / errno, destination bytes + mode, part file bytes +
+mode, directory listing, number of calls made and the outcome of the retry are compared.  The
+oracle restates C05 on the real outcome.
 """
 import errno
 import itertools
@@ -34,29 +37,149 @@ ALT_ERRNO = {'os.open': errno.EEXIST, 'os.link': errno.EMLINK, 'os.rename': errn
 LISTED_STEPS = {'os.open', 'os.fdopen', 'os.chmod', 'file.write', 'file.flush', 'os.fsync', 'file.close',
                 'os.rename', 'os.replace', 'os.link', 'open'}
 
+# A plan action >= 1000 makes the call raise an exception that is NOT an errno-carrying OSError.  The Lean
+# model treats an error as an opaque number (`Errno = Nat`), exactly as the code must (`except Exception`):
+# these codes are the numbers by which the two sides name the exception classes.
+EXC_CODES = {1000: OSError, 1001: ValueError, 1002: MemoryError, 1003: RuntimeError, 1004: AttributeError,
+             1005: TypeError, 1006: UnicodeEncodeError, 1007: EOFError}
+EXC_CODE_OF = {cls.__name__: code for code, cls in EXC_CODES.items() if code != 1000}
+QUICK_CODES = [1001, 1002, 1000, 1003]
+
+
+def make_exc(code):
+    cls = EXC_CODES[code]
+    if code == 1000:
+        return OSError('injected fault without an errno')
+    if cls is UnicodeEncodeError:
+        return UnicodeEncodeError('ascii', 'x', 0, 1, 'injected fault')
+    return cls('injected fault')
+
 
 class BodyError(Exception):
     pass
+
+
+class BodyBase(BaseException):
+    pass
+
+
+# how the with-block ends: 0 = normally; the others raise (1 an ordinary Exception, 2-5 BaseExceptions that
+# are not Exceptions, 6 an OSError of the block's own, 7 a ValueError of the block's own)
+BODY_EXC = {1: BodyError, 2: KeyboardInterrupt, 3: SystemExit, 4: GeneratorExit, 5: BodyBase,
+            6: lambda: OSError(errno.ENOSPC, 'the block\'s own I/O failed'), 7: lambda: ValueError('from the block')}
 
 
 def hx(b):
     return b.hex() if b else '-'
 
 
+_SCRATCH = []
+
+
+def scratch_base():
+    """where the per-case scratch directories are made: a memory-backed file system when there is one (C05 is
+    about what the calls do to the directory, not about the disk: fsync on a busy disk costs milliseconds
+    and made the run time depend on what else the machine is doing), else the default temporary directory"""
+    if not _SCRATCH:
+        base = None
+        # BV_C05_SCRATCH=<dir> chooses the place, BV_C05_SCRATCH=default forces the default temporary directory
+        forced = os.environ.get('BV_C05_SCRATCH')
+        for cand in ((forced,) if forced else ('/dev/shm',)):
+            if not cand or cand == 'default' or not os.path.isdir(cand):
+                continue
+            try:
+                d = tempfile.mkdtemp(prefix='bvC05-probe-', dir=cand)
+                try:
+                    a, b = os.path.join(d, 'a'), os.path.join(d, 'b')
+                    with open(a, 'wb') as f:
+                        f.write(b'x')
+                        f.flush()
+                        os.fsync(f.fileno())
+                    os.chmod(a, 0o1640)
+                    os.link(a, b)           # hard links, permission bits and rename must work there
+                    os.rename(b, a)
+                    ok = stat.S_IMODE(os.lstat(a).st_mode) == 0o1640
+                finally:
+                    shutil.rmtree(d, ignore_errors=True)
+                if ok:
+                    base = cand
+                    break
+            except OSError:
+                continue
+        _SCRATCH.append(base)
+    return _SCRATCH[0]
+
+
+def rm_scratch(d):
+    try:
+        for n in os.listdir(d):
+            os.unlink(os.path.join(d, n))
+        os.rmdir(d)
+    except OSError:
+        shutil.rmtree(d, ignore_errors=True)
+
+
+class Spy5(Spy):
+    """fsspy.Spy + plan actions >= 1000: the call raises the exception class EXC_CODES[action]"""
+
+    def counted(self, name, real, args, kwargs, paths, size=None, still=None):
+        act = self.plan.get(self.n)
+        if isinstance(act, int) and act >= 1000:
+            idx = self.n
+            self.n += 1
+            rec = {'i': idx, 'call': name, 'paths': paths, 'ok': False, 'errno': act, 'injected': True,
+                   'cls': EXC_CODES[act].__name__}
+            if size is not None:
+                rec['size'] = size
+            self.log.append(rec)
+            if still is not None:
+                try:
+                    still()
+                    rec['performed'] = True
+                except Exception:
+                    pass
+            raise make_exc(act)
+        return Spy.counted(self, name, real, args, kwargs, paths, size=size, still=still)
+
+
+def ops_of(case):
+    """the with-block's script: 'w<hex>' = f.write(bytes), 'f' = f.flush(), 'c' = f.close()"""
+    if case.get('ops') is not None:
+        return list(case['ops'])
+    return ['w' + w for w in case['writes']]
+
+
+def new_hex(case):
+    return ''.join(op[1:] for op in ops_of(case) if op[0] == 'w') or '-'
+
+
 class C05(Property):
     PID = 'C05'
     QUICK_BUDGET_S = 75
     THOROUGH_BUDGET_S = 700
+    MODEL_OPS = True     # flush()/close() calls of the with-block are inside the Lean model
     RULE = ('a case is one whole save in a scratch directory: flags (overwrite, overwrite_part, rm_part_on_exc, '
-            'text_mode) x file_perms {None,0600,0644; 0 on a sub-family} x umask {022,077,000} x destination {absent, 0644, 0600} x '
-            'part file {absent, present} x body (0/1/2 writes, raising or not) x plan (no fault; every single '
-            'fault position of the observed call sequence with a per-site errno; the destination appearing before '
-            'each call; thorough: every pair of faults), followed by an immediate fault-free retry. '
+            'text_mode) x file_perms {None,0600,0644; 0, sticky on sub-families} x umask {022,077,000} x destination {absent, 0644, 0600} x '
+            'part file {absent, present} x with-block (a script of write/flush/close calls on the file object - 0/1/2 writes, '
+            'the block closing the file itself, writing after closing, flushing - ending normally or raising an Exception, '
+            'KeyboardInterrupt, SystemExit, GeneratorExit, another BaseException, an OSError or a ValueError of its own) x '
+            'buffering {default, 0, 1, small, large} x plan (no fault; every single '
+            'fault position of the observed call sequence with a per-site errno and, on sub-families, with non-OSError '
+            'exception classes (ValueError, MemoryError, RuntimeError, an OSError without errno); the destination appearing before '
+            'each call; every pair of faults on a sub-family, thorough: on all), followed by an immediate fault-free retry '
+            '(fresh saver, or the same AtomicSaver instance used twice). '
+            'Small adversarial families come first (file_perms=0, block behaviours x exception kinds, exception classes at every '
+            'call, fault pairs, buffering, instance reuse, special permission bits), then the full enumeration. '
             'Non-trivial = the save did not complete (some call failed, the body raised, or it was refused); '
             'distinct = distinct (configuration, initial state, body, plan).')
     ASSUMPTIONS = ['faults are injected by replacing boltons.fileutils.os and wrapping the part file object: an injected '
                    'failure performs no part of the call (a failing file.close() still closes the descriptor)',
+                   'an injected failure is an OSError(errno) or, for plan actions >= 1000, an exception of another class '
+                   '(ValueError, MemoryError, RuntimeError, an OSError without errno, ...); a BaseException that is not an '
+                   'Exception is only used as the way the with-block ends',
                    'single process, no other writer in the scratch directory except the scripted "destination appears" action',
+                   'the scratch directory is made on a memory-backed file system (/dev/shm) when one passes a probe '
+                   '(hard links, rename, permission bits), else in the default temporary directory',
                    'POSIX branch of atomic_rename/replace (os.name != "nt")']
     CORRESPONDENCE_NAME = 'C05.Driver (runSave on the abstract FS) vs boltons.fileutils.atomic_save on a real scratch directory'
 
@@ -88,11 +211,27 @@ class C05(Property):
         return out
 
     BODIES = [(['4e455731'], 0), ([], 0), (['4e45', '5732'], 0), (['4e455731'], 1), ([], 1)]
+    # with-blocks that do more than write: (ops, raises)
+    N1 = 'w4e455731'
+    SCRIPTS = [([N1, 'c'], 0), ([N1, 'c'], 1), ([N1, 'f', 'w32'], 0), ([N1, 'c', 'w32'], 0), (['c'], 0),
+               (['f', 'c', 'f'], 0), ([N1, 'f'], 1), ([N1, 'c', 'c'], 0), ([N1, 'f', 'c'], 2)]
 
-    def with_plans(self, base, appear=True, alt=False, pairs=False):
+    @staticmethod
+    def mk(ow=1, owp=0, rm=1, txt=0, perms=None, umask=0o022, dm=None, pm=None, writes=('4e455731',), raises=0, **extra):
+        c = dict(ow=ow, owp=owp, rm=rm, txt=txt, perms=perms, umask=umask, dest=None if dm is None else [dm, hx(OLD)],
+                 part=None if pm is None else [pm, hx(STALE)], writes=list(writes), raises=raises)
+        c.update(extra)
+        return c
+
+    @staticmethod
+    def script(base, ops, raises):
+        return dict(base, ops=list(ops), writes=[op[1:] for op in ops if op[0] == 'w'], raises=raises)
+
+    def with_plans(self, base, appear=True, alt=False, pairs=False, codes=()):
         """the fault-free case, then every single fault position of the call sequence observed on the
-        real code (per-site errno), the destination appearing before each call, and optionally every
-        pair of faults (the second position ranges over the calls made after the first fault)"""
+        real code (per-site errno, then each of the exception-class `codes`), the destination appearing
+        before each call, and optionally every pair of faults (the second position ranges over the calls
+        made after the first fault)"""
         c0 = dict(base, plan=[])
         yield c0
         calls = self.learn_calls(c0)
@@ -100,6 +239,8 @@ class C05(Property):
             e = SITE_ERRNO.get(name, errno.EIO)
             c1 = dict(base, plan=[[k, e]])
             yield c1
+            for code in codes:
+                yield dict(base, plan=[[k, code]])
             if alt and name in ALT_ERRNO:
                 yield dict(base, plan=[[k, ALT_ERRNO[name]]])
             if appear:
@@ -108,6 +249,8 @@ class C05(Property):
                 calls1 = self.learn_calls(c1)
                 for j in range(k + 1, len(calls1)):
                     yield dict(base, plan=[[k, e], [j, SITE_ERRNO.get(calls1[j], errno.EIO)]])
+                    if codes:
+                        yield dict(base, plan=[[k, codes[0]], [j, codes[(j + k) % len(codes)]]])
                 if appear:
                     for j in range(k + 1, len(calls)):
                         yield dict(base, plan=[[k, 'A'], [j, SITE_ERRNO.get(calls[j], errno.EIO)]])
@@ -115,8 +258,70 @@ class C05(Property):
         yield dict(base, plan=[[len(calls), errno.EIO]])
 
     def learn_calls(self, case):
-        obs = self.impl(case)
+        # the observation is kept for the evaluation of the same case that follows (the run is deterministic)
+        obs = self.run_case(case)
+        memo = self.__dict__.setdefault('_memo', {})
+        if len(memo) > 64:
+            memo.clear()
+        memo[self.key(case)] = obs
         return obs['first'].get('log', [])
+
+    def small_families(self, full):
+        """small, diverse, adversarial: generated FIRST so that a slow machine (budget cut) never loses them"""
+        mk, script = self.mk, self.script
+        # 1. an explicit file_perms of 0 (a fully locked-down file) is a request like any other, not "none given"
+        for ow, dm, um in itertools.product((1, 0), (None, 0o644, 0o600), (0o022, 0)):
+            for c in self.with_plans(mk(ow=ow, perms=0, umask=um, dm=dm), appear=False):
+                yield c
+        # 2. what the with-block does besides writing (closes the file itself, writes after closing, flushes)
+        #    x how it ends, with every single fault; then the ways a block can raise
+        for (ow, dm), (ops, raises) in itertools.product(((1, 0o644), (0, None)), self.SCRIPTS):
+            for c in self.with_plans(script(mk(ow=ow, dm=dm), ops, raises), appear=False):
+                yield c
+        for kind in sorted(BODY_EXC):
+            for ow, dm, rm in ((1, 0o644, 1), (0, None, 1), (1, None, 0)):
+                for c in self.with_plans(mk(ow=ow, dm=dm, rm=rm, raises=kind), appear=False,
+                                         codes=(1001,) if kind in (1, 2) else ()):
+                    yield c
+        for c in self.with_plans(script(mk(txt=1, dm=0o600), [self.N1, 'c'], 0), appear=False):
+            yield c
+        # 3. every call failing with something that is not an errno-carrying OSError
+        for ow, dm, perms, txt in ((1, 0o600, None, 0), (0, None, None, 1), (1, None, 0o600, 0)):
+            for raises in (0, 1):
+                for c in self.with_plans(mk(ow=ow, dm=dm, perms=perms, txt=txt, raises=raises), appear=False, alt=True,
+                                         codes=QUICK_CODES):
+                    if c['plan']:
+                        yield c
+        # 4. every pair of faults (errno and exception-class) on a few configurations
+        for ow, dm, perms, owp, pm in ((1, 0o644, None, 0, None), (0, None, 0o600, 0, None), (1, None, None, 1, 0o640)):
+            for raises in (0, 1):
+                for c in self.with_plans(mk(ow=ow, dm=dm, perms=perms, owp=owp, pm=pm, raises=raises), appear=ow == 0,
+                                         pairs=True, codes=(1001, 1002)):
+                    if len(c['plan']) == 2:
+                        yield c
+        # 5. the buffering argument (0 = unbuffered, refused by Python in text mode; 1 = line buffered; sizes around the data)
+        for txt, buf in ((0, 0), (1, 0), (1, 1), (0, 2), (0, 3), (1, 4), (0, 65536)):
+            for dm, raises in ((0o644, 0), (None, 1)):
+                wr = ('4e45', '5731320a', '33') if buf else ('4e455731',)
+                for c in self.with_plans(mk(txt=txt, dm=dm, raises=raises, writes=wr, buf=buf), appear=False):
+                    yield c
+        # 6. one AtomicSaver instance used several times (reuse=1: the retry runs on the same object; reuse=2: moreover the
+        #    object has already been through a save whose block raised)
+        for dm, um, perms, ow in itertools.product((None, 0o644, 0o600), (0o022, 0o077), (None, 0o640), (1, 0)):
+            for raises in (0, 1):
+                for c in self.with_plans(mk(ow=ow, dm=dm, umask=um, perms=perms, raises=raises, reuse=1 + (raises + ow) % 2),
+                                         appear=False):
+                    yield c
+        # 7. permission bits beyond rwx (sticky), requested explicitly or carried by the replaced file
+        #    and the boundary value: permissions equal to the built-in default 0666
+        for perms, dm, um in ((0o1644, None, 0o022), (None, 0o1640, 0o022), (0o1600, 0o644, 0o022), (0o7, 0o1644, 0o022),
+                              (0o666, None, 0o022), (0o666, 0o600, 0o077), (None, 0o666, 0o022), (None, 0o666, 0o077), (0o777, None, 0o027)):
+            for c in self.with_plans(mk(perms=perms, dm=dm, umask=um), appear=False):
+                yield c
+        # 8. a write larger than any buffer
+        big = (bytes(range(48, 112)) * 400).hex()
+        for c in self.with_plans(mk(dm=0o644, writes=('4e45', big)), appear=False):
+            yield c
 
     def cases(self, budget_s):
         full = self.thorough
@@ -124,12 +329,8 @@ class C05(Property):
         sel = list(range(len(cfgs)))
         self.rng.shuffle(sel)
         rank = {ci: r for r, ci in enumerate(sel)}
-        # the small families come first so that a slow machine (budget cut) never loses them
-        # an explicit file_perms of 0 (a fully locked-down file) is a request like any other, not "none given"
-        for ow, dm, um in itertools.product((1, 0), (None, 0o644, 0o600), (0o022, 0)):
-            for c in self.with_plans(dict(ow=ow, owp=0, rm=1, txt=0, perms=0, umask=um, dest=None if dm is None else [dm, hx(OLD)],
-                                          part=None, writes=['4e455731'], raises=0), appear=False):
-                yield c
+        for c in self.small_families(full):
+            yield c
         # custom part file name
         for i, cfg in enumerate(cfgs):
             if rank[i] % 40 == 1:
@@ -149,55 +350,89 @@ class C05(Property):
                 base = dict(cfg, writes=writes, raises=raises)
                 for c in self.with_plans(base, appear=rich, alt=full, pairs=full and bi in (0, 2, 3)):
                     yield c
+            if full or rank[i] % 16 == 5:
+                ops, raises = self.SCRIPTS[rank[i] % len(self.SCRIPTS)]
+                for c in self.with_plans(self.script(cfg, ops, raises), appear=full, codes=QUICK_CODES if full else (1001,)):
+                    yield c
         for c in self.random_cases(3500 if full else 250):
             yield c
 
     def deep_cases(self, budget_s):
+        for c in self.small_families(True):
+            yield c
         cfgs = self.base_configs()
         self.rng.shuffle(cfgs)
         for cfg in cfgs:
             for writes, raises in self.BODIES:
-                for c in self.with_plans(dict(cfg, writes=writes, raises=raises), alt=True, pairs=writes == ['4e455731']):
+                for c in self.with_plans(dict(cfg, writes=writes, raises=raises), alt=True, pairs=writes == ['4e455731'],
+                                         codes=(1001,)):
                     yield c
 
     def random_cases(self, n):
         rng = self.rng
         for _ in range(n):
-            dm = rng.choice([None, 0o644, 0o600, 0o664, 0o400])
+            dm = rng.choice([None, 0o644, 0o600, 0o664, 0o400, 0o1644])
             pm = rng.choice([None, None, 0o640, 0o600])
             nw = rng.choice([0, 1, 1, 2, 3, 5])
-            writes = [bytes(rng.randrange(32, 127) for _ in range(rng.choice([1, 2, 7, 40]))).hex() for _ in range(nw)]
+            sizes = [1, 2, 7, 40] + ([9000] if rng.random() < 0.03 else [])
+            ops = ['w' + bytes(rng.randrange(32, 127) for _ in range(rng.choice(sizes))).hex() for _ in range(nw)]
+            if rng.random() < 0.3:
+                for _ in range(rng.choice([1, 1, 2])):
+                    ops.insert(rng.randrange(len(ops) + 1), rng.choice(['f', 'c', 'f', 'c', 'w41']))
             plan = []
-            idxs = sorted(rng.sample(range(0, 14 + nw), rng.choice([0, 1, 1, 2, 2, 3])))
+            idxs = sorted(rng.sample(range(0, 14 + len(ops)), rng.choice([0, 1, 1, 2, 2, 3])))
             for k in idxs:
-                plan.append([k, rng.choice(['A', errno.ENOSPC, errno.EIO, errno.EPERM, errno.EEXIST, errno.EACCES, errno.EINTR])])
-            yield dict(ow=rng.randrange(2), owp=rng.randrange(2), rm=rng.randrange(2), txt=rng.randrange(2),
-                       perms=rng.choice([None, None, 0o600, 0o644, 0o640, 0o755, 0o444, 0, 0o200]),
-                       umask=rng.choice([0o022, 0o077, 0, 0o027, 0o002]),
-                       dest=None if dm is None else [dm, bytes(rng.randrange(32, 127) for _ in range(rng.choice([0, 3, 11]))).hex() or '-'],
-                       part=None if pm is None else [pm, hx(STALE)],
-                       writes=writes, raises=rng.randrange(2) if rng.random() < 0.4 else 0, plan=plan,
-                       **({'pf': 'other.part'} if rng.random() < 0.15 else {}))
+                plan.append([k, rng.choice(['A', errno.ENOSPC, errno.EIO, errno.EPERM, errno.EEXIST, errno.EACCES, errno.EINTR,
+                                            1001, 1002, rng.choice(sorted(EXC_CODES))])])
+            c = dict(ow=rng.randrange(2), owp=rng.randrange(2), rm=rng.randrange(2), txt=rng.randrange(2),
+                     perms=rng.choice([None, None, 0o600, 0o644, 0o640, 0o755, 0o444, 0, 0o200, 0o1666]),
+                     umask=rng.choice([0o022, 0o077, 0, 0o027, 0o002]),
+                     dest=None if dm is None else [dm, bytes(rng.randrange(32, 127) for _ in range(rng.choice([0, 3, 11]))).hex() or '-'],
+                     part=None if pm is None else [pm, hx(STALE)],
+                     writes=[op[1:] for op in ops if op[0] == 'w'],
+                     raises=(rng.choice([1, 1, 1, 2, 3, 4, 5, 6, 7]) if rng.random() < 0.4 else 0), plan=plan,
+                     **({'pf': 'other.part'} if rng.random() < 0.15 else {}))
+            if any(op[0] != 'w' for op in ops):
+                c['ops'] = ops
+            if rng.random() < 0.2:
+                c['buf'] = rng.choice([0, 1, 2, 5, 4096]) if c['txt'] else rng.choice([0, 2, 5, 4096])
+            if rng.random() < 0.25:
+                c['reuse'] = 2 if (c['rm'] and c['part'] is None and rng.random() < 0.5) else 1
+            yield c
 
     # ------------------------------------------------------------------ model line
     def line(self, case):
         if case.get('chdir'):
             return None     # process-level cwd is not part of the model
+        if case['txt'] and case.get('buf') == 0:
+            return None     # Python itself refuses unbuffered text I/O (os.fdopen raises ValueError): oracle only
+        ops = ops_of(case)
+        if not self.MODEL_OPS and any(op[0] != 'w' for op in ops):
+            return None
         # an injected ENOENT at os.stat is outside the harness's fault vocabulary (it is not a failure)
         def f(x):
             return '-' if x is None else '%d:%s' % (x[0], x[1])
+        toks = [op[1:] if op[0] == 'w' else op.upper() for op in ops]
         return ' '.join([
             '%d%d%d%d' % (case['ow'], case['owp'], case['rm'], case['txt']),
             '-' if case['perms'] is None else str(case['perms']), str(case['umask']),
-            f(case['dest']), f(case['part']), str(case['raises']),
-            ','.join(case['writes']) or '-',
+            f(case['dest']), f(case['part']), str(1 if case['raises'] else 0),
+            ','.join(toks) or '-',
             ','.join('%d:%s' % (k, a) for k, a in case['plan']) or '-'])
 
     # ------------------------------------------------------------------ implementation
     def impl(self, case):
+        memo = self.__dict__.get('_memo')
+        if memo:
+            obs = memo.pop(self.key(case), None)
+            if obs is not None:
+                return obs
+        return self.run_case(case)
+
+    def run_case(self, case):
         import boltons.fileutils as fu
-        d = tempfile.mkdtemp(prefix='bvC05-')
-        d2 = tempfile.mkdtemp(prefix='bvC05b-') if case.get('chdir') else None
+        d = tempfile.mkdtemp(prefix='bvC05-', dir=scratch_base())
+        d2 = tempfile.mkdtemp(prefix='bvC05b-', dir=scratch_base()) if case.get('chdir') else None
         old_umask = os.umask(0o022)
         old_cwd = os.getcwd()
         obs = {}
@@ -209,6 +444,8 @@ class C05(Property):
                     with open(path, 'wb') as f:
                         f.write(b'' if spec[1] == '-' else bytes.fromhex(spec[1]))
                     os.chmod(path, spec[0])
+                    if stat.S_IMODE(os.lstat(path).st_mode) != spec[0]:
+                        obs['env'] = 'the scratch file system does not keep mode %o' % spec[0]
             os.umask(case['umask'])
             # documented defaults are exercised by omitting the keyword
             kw = {}
@@ -220,14 +457,23 @@ class C05(Property):
                 kw['file_perms'] = case['perms']
             if case.get('pf'):
                 kw['part_file'] = case['pf']       # custom part file name (always in the destination's directory)
+            if case.get('buf') is not None:
+                kw['buffering'] = case['buf']
             plan = {k: a for k, a in case['plan']}
+            ops = ops_of(case)
+            holder = {} if case.get('reuse') else None
+            if case.get('reuse') == 2 and case['rm'] and case['part'] is None and not d2:
+                # the instance has been used before: a save whose block raises at once (it must leave everything as it was)
+                w = self.one_save(fu, d, dest, kw, [], 1, {}, case['txt'], holder=holder)
+                obs['warm'] = {k: w[k] for k in ('out', 'dest', 'part', 'extra')}
             if d2:
                 os.chdir(d)
-                obs['first'] = self.one_save(fu, d, dest, kw, case['writes'], case['raises'], plan, case['txt'], rel=DEST, chdir_to=d2)
+                obs['first'] = self.one_save(fu, d, dest, kw, ops, case['raises'], plan, case['txt'], rel=DEST, chdir_to=d2)
                 os.chdir(old_cwd)
             else:
-                obs['first'] = self.one_save(fu, d, dest, kw, case['writes'], case['raises'], plan, case['txt'])
-            obs['retry'] = self.one_save(fu, d, dest, kw, case['writes'], 0, {}, case['txt'])
+                obs['first'] = self.one_save(fu, d, dest, kw, ops, case['raises'], plan, case['txt'], holder=holder)
+            obs['retry'] = self.one_save(fu, d, dest, kw, ['w' + op[1:] for op in ops if op[0] == 'w'], 0, {}, case['txt'],
+                                         holder=holder)
         except CaseTimeout:
             obs.setdefault('first', {'out': 'exc:CaseTimeout', 'calls': 0, 'dest': None, 'part': None, 'extra': [], 'log': []})
             obs.setdefault('retry', {'out': 'exc:CaseTimeout', 'calls': 0, 'dest': None, 'part': None, 'extra': [], 'log': []})
@@ -237,37 +483,55 @@ class C05(Property):
                 del fu.__dict__['open']
             os.umask(old_umask)
             os.chdir(old_cwd)
-            shutil.rmtree(d, ignore_errors=True)
+            rm_scratch(d)
             if d2:
-                shutil.rmtree(d2, ignore_errors=True)
+                rm_scratch(d2)
         return obs
 
-    def one_save(self, fu, d, dest, kw, writes, raises, plan, txt, rel=None, chdir_to=None):
+    def one_save(self, fu, d, dest, kw, ops, raises, plan, txt, rel=None, chdir_to=None, holder=None):
         partname = kw.get('part_file') or PART
-        spy = Spy(dest, plan=plan)
+        spy = Spy5(dest, plan=plan)
         out = 'ok'
+        mk = BODY_EXC.get(raises)
+        body_exc = mk() if mk else None
+        closed_by_body = False
         try:
             with time_limit(10):
                 spy.install()
                 try:
-                    with fu.atomic_save(rel or dest, **kw) as f:
-                        for w in writes:
-                            b = bytes.fromhex(w)
-                            f.write(b.decode('latin-1') if txt else b)
+                    if holder is not None and 'saver' in holder:
+                        saver = holder['saver']          # the same AtomicSaver instance, used a second time
+                    else:
+                        saver = fu.atomic_save(rel or dest, **kw)
+                        if holder is not None:
+                            holder['saver'] = saver
+                    with saver as f:
+                        for op in ops:
+                            if op[0] == 'w':
+                                b = bytes.fromhex(op[1:])
+                                f.write(b.decode('latin-1') if txt else b)
+                            elif op == 'f':
+                                f.flush()
+                            elif op == 'c':
+                                closed_by_body = True
+                                f.close()
                         if chdir_to:
                             os.chdir(chdir_to)
-                        if raises:
-                            raise BodyError()
+                        if body_exc is not None:
+                            raise body_exc
                 finally:
                     spy.uninstall()
-        except BodyError:
-            out = 'body'
         except CaseTimeout:
             raise
-        except OSError as e:
-            out = 'os:%s' % (e.errno,)
-        except Exception as e:
-            out = 'exc:' + exc_name(e)
+        except BaseException as e:
+            if e is body_exc:
+                out = 'body'
+            elif isinstance(e, OSError):
+                out = 'os:%s' % (e.errno,)
+            elif isinstance(e, Exception):
+                out = 'exc:' + exc_name(e)
+            else:
+                out = 'exc:' + exc_name(e)      # a BaseException that is not the block's own
 
         def look(p):
             try:
@@ -301,17 +565,27 @@ class C05(Property):
             if r.get('injected') and r['call'] in ('os.unlink', 'os.remove'):
                 unlink_faulted = True
         faults = [[r['i'], r['call']] for r in spy.log if r.get('injected')]
+        fault_cls = sorted({r['cls'] for r in spy.log if r.get('injected') and r.get('cls')})
         appear_at = [r['i'] for r in spy.log if r.get('appeared')]
         return {'out': out, 'calls': spy.n, 'dest': look(dest), 'part': look(os.path.join(d, partname)),
                 'extra': [n for n in names if n not in (DEST, partname)], 'log': log, 'pub': pub, 'pub_index': pub_index,
-                'created': created, 'unlink_faulted': unlink_faulted, 'faults': faults, 'appear_at': appear_at}
+                'created': created, 'unlink_faulted': unlink_faulted, 'faults': faults, 'appear_at': appear_at,
+                'fault_cls': fault_cls, 'closed_by_body': closed_by_body}
 
     def render(self, case, obs):
         def f(x):
             return '-' if x is None else '%d:%s' % (x[0], x[1])
 
+        def outc(s):
+            # the two sides name an exception class by its number (EXC_CODES)
+            if s == 'os:None':
+                return 'os:1000'
+            if s.startswith('exc:') and s[4:] in EXC_CODE_OF:
+                return 'os:%d' % EXC_CODE_OF[s[4:]]
+            return s
+
         def half(o):
-            s = 'out=%s calls=%d dest=%s part=%s' % (o['out'], o['calls'], f(o['dest']), f(o['part']))
+            s = 'out=%s calls=%d dest=%s part=%s' % (outc(o['out']), o['calls'], f(o['dest']), f(o['part']))
             if o['extra']:
                 s += ' extra=' + ','.join(o['extra'])
             return s
@@ -325,14 +599,41 @@ class C05(Property):
         st['out:' + o['out'].split(':')[0]] = st.get('out:' + o['out'].split(':')[0], 0) + 1
         for _, name in o.get('faults', []):
             st['fault@' + name] = st.get('fault@' + name, 0) + 1
+        for k in ('ops', 'buf', 'reuse'):
+            if case.get(k):
+                st['with:' + k] = st.get('with:' + k, 0) + 1
+        if case['raises']:
+            st['raises:%d' % case['raises']] = st.get('raises:%d' % case['raises'], 0) + 1
+        self._nt = False
+        if obs.get('env'):
+            st['env-skipped'] = st.get('env-skipped', 0) + 1
+            return None         # the scratch file system cannot represent the initial state (e.g. drops the sticky bit)
         if o['out'].startswith('exc:'):
-            return Failure('unexpected-exception', 'atomic_save raised %s (neither the block\'s exception nor an OSError)' % o['out'][4:])
-        new = ''.join(case['writes'])
-        new = [None, new or '-']
+            # an exception that is neither the block's own nor an OSError must have a cause the harness knows:
+            # an injected exception of that class, or Python refusing I/O on a file object the BLOCK closed
+            # / refusing unbuffered text mode
+            name = o['out'][4:]
+            explained = set(o.get('fault_cls', []))
+            if o.get('closed_by_body') or (case['txt'] and case.get('buf') == 0):
+                explained.add('ValueError')
+            if name not in explained:
+                return Failure('unexpected-exception', 'atomic_save raised %s (neither the block\'s exception nor an OSError nor an injected failure)' % name)
+        w = obs.get('warm')
+        if w is not None:
+            # only generated with rm_part_on_exc on and no part file: the warm-up save (block raises) must change nothing
+            if w['out'] == 'ok':
+                return Failure('silent-failure', 'a save whose block raised ended without an exception')
+            if w['dest'] != case['dest']:
+                return Failure('dest-changed', 'destination was %r, is %r after a save whose block raised' % (case['dest'], w['dest']))
+            if w['part'] is not None:
+                return Failure('part-left', 'part file left behind after a save whose block raised (rm_part_on_exc on)')
+        new = [None, new_hex(case)]
         completed = o['pub']
         pub_index = o['pub_index']
         before = (lambda i: pub_index is None or i < pub_index)
-        appeared_before = [i for i in o['appear_at'] if before(i)]
+        # the destination "appears" immediately BEFORE the call carrying that index: an appearance at the index of
+        # the publishing call itself still precedes the publication
+        appeared_before = [i for i in o['appear_at'] if pub_index is None or i <= pub_index]
         init_dest = case['dest']
         # what "the destination's previous content and permissions" are
         prev = init_dest if init_dest is not None else ([ENV_MODE, hx(ENV_BYTES)] if appeared_before else None)
@@ -368,12 +669,33 @@ class C05(Property):
                 return Failure('part-left', 'part file left behind after a failed save (rm_part_on_exc on, no unlink failed)')
         if not o['created'] and case['part'] is not None and o['part'] is not None and o['part'] != case['part']:
             return Failure('part-reused', 'pre-existing part file modified by a save that never created one')
-        # retry
+        # retry: a second, fault-free save of the same data that starts in the state the first one left
         r = obs['retry']
+        if r['out'] == 'exc:CaseTimeout':
+            return Failure('unexpected-exception', 'the retry did not terminate')
+        # (a configuration that Python itself refuses - unbuffered text mode - fails the same way every time)
+        refused_by_python = bool(case['txt'] and case.get('buf') == 0)
         if (not completed and case['rm'] and not o['unlink_faulted'] and (case['part'] is None or case['owp'])
-                and (case['ow'] or o['dest'] is None)):
+                and (case['ow'] or o['dest'] is None) and not refused_by_python):
             if r['out'] != 'ok' or r['dest'] is None or r['dest'][1] != new[1]:
                 return Failure('retry-fails', 'an immediate retry after the failed save gives %s, destination %r' % (r['out'], r['dest']))
+        # ... and is a save of its own, to which the property applies as well
+        if o['part'] is not None and not case['owp']:
+            if r['part'] != o['part'] or r['out'] == 'ok':
+                return Failure('part-reused', 'retry: pre-existing part file %r became %r (outcome %s) although overwrite_part is off' % (
+                    o['part'], r['part'], r['out']))
+        if not case['ow'] and o['dest'] is not None:
+            if r['out'] == 'ok' or r['dest'] != o['dest']:
+                return Failure('completed-despite-failure', 'retry with overwrite=False over an existing destination: outcome %s, destination %r -> %r' % (
+                    r['out'], o['dest'], r['dest']))
+        if r['out'] == 'ok' and r.get('pub'):
+            if r['dest'] is None or r['dest'][1] != new[1]:
+                return Failure('wrong-content', 'retry: published destination holds %r, expected %r' % (r['dest'], new[1]))
+            want = case['perms'] if case['perms'] is not None else (
+                o['dest'][0] if o['dest'] is not None else 0o666 & ~case['umask'])
+            if r['dest'][0] != want:
+                return Failure('wrong-perms', 'retry%s: published destination has mode %o, expected %o' % (
+                    ' on the same AtomicSaver instance' if case.get('reuse') else '', r['dest'][0], want))
         return None
 
     def nontrivial(self, case, obs):
@@ -383,8 +705,21 @@ class C05(Property):
         plan = case['plan']
         for i in range(len(plan)):
             yield dict(case, plan=plan[:i] + plan[i + 1:])
-        if len(case['writes']) > 1:
+        for i, (k, a) in enumerate(plan):
+            if isinstance(a, int) and a >= 1000 and a != 1001:
+                yield dict(case, plan=plan[:i] + [[k, 1001]] + plan[i + 1:])
+        if case.get('ops') is not None:
+            ops = case['ops']
+            for i in range(len(ops)):
+                o2 = ops[:i] + ops[i + 1:]
+                c = dict(case, ops=o2, writes=[op[1:] for op in o2 if op[0] == 'w'])
+                if all(op[0] == 'w' for op in o2):
+                    del c['ops']
+                yield c
+        elif len(case['writes']) > 1:
             yield dict(case, writes=case['writes'][:1])
+        if case['raises'] > 1:
+            yield dict(case, raises=1)
         if case['raises']:
             yield dict(case, raises=0)
         if case['txt']:
@@ -397,10 +732,9 @@ class C05(Property):
             yield dict(case, owp=0)
         if case['perms'] is not None:
             yield dict(case, perms=None)
-        if case.get('chdir'):
-            yield {k: v for k, v in case.items() if k != 'chdir'}
-        if case.get('pf'):
-            yield {k: v for k, v in case.items() if k != 'pf'}
+        for k in ('chdir', 'pf', 'buf', 'reuse'):
+            if case.get(k) is not None:
+                yield {kk: v for kk, v in case.items() if kk != k}
 
 
 PROPERTY = C05
